@@ -27,7 +27,7 @@ from .tlc import run_tlc, parse_fails
 
 S = odl.solvers
 QSCALE = 65536            # fixed-point scale of relational clauses (2^16)
-QLIM = 30000.0            # |v| beyond this is not quantised (flag fin = 0)
+QLIM = 8000.0             # |v| beyond this is not quantised (flag fin = 0); sums of three stay below 2^31
 SNAP_TOL = 2.0 ** -36     # rounding (<= 1e-13 incl. ODL's (1 - 10 eps) fudge) << tol << 1/D
 SNAP_D = 960              # lattice of observations: multiples of 1/960 (halves ... 64ths, thirds, fifths and products)
 PROBE_SLACKQ = 16         # 2^-12: far below the cost 1/160 of a lattice-step error, far above rounding
@@ -706,8 +706,13 @@ def observe_prox(B, sig, kind, xvals, zstar, rnd, style=0, want_idem=False):
         nd = float(np.linalg.norm(dirv))
         if nd > 0:
             near.append(pf + scale * dirv / nd)
+        for w in (np.zeros_like(pf), np.array([float(v) for v in xvals])):
+            dw = w - pf
+            nw = float(np.linalg.norm(dw))
+            if nw > 0:
+                near.append(pf + scale * dw / nw)
         prn = np.random.RandomState(12345)
-        for _ in range(8):
+        for _ in range(64):
             near.append(pf + scale * prn.uniform(-1, 1, size=pf.shape))
         for cand in near:
             try:
